@@ -192,6 +192,7 @@ func realSweep(family string, n int, seed uint64, args []string) int {
 		keysvFixed(sw)
 		realKeySV(r, n, sw)
 	case "digest":
+		newVerifierFixed(sw)
 		realDigest(r, n, sw)
 	case "conc":
 		realConc(r, n, sw)
@@ -808,6 +809,26 @@ func realDigest(r *rng, n int, sw *sweep) {
 				sw.fail("digest", desc, "a signature returned earlier was overwritten by a later call on the same signer")
 			} else if v.Verify(c1, a1) != nil || v.Verify(c2, a2) != nil || v.Verify(c2, d3) != nil || !stdVerify(k, c1, a1) {
 				sw.fail("digest", desc, "signatures over two messages from one signer object do not both verify")
+			}
+		}
+		if k.name == "ecdsa" {
+			// the digest entry point is as strict about the rendering of (r, s) as Verify is
+			n0 := len(sig2) / 2
+			rr, ss := sig2[:n0], sig2[n0:]
+			cat := func(parts ...[]byte) []byte { return bytes.Join(parts, nil) }
+			z := []byte{0}
+			forms := map[string][]byte{
+				"00|r|00|s": cat(z, rr, z, ss), "0000|r|0000|s": cat(z, z, rr, z, z, ss), "r|00|s": cat(rr, z, ss),
+				"00|r|s": cat(z, rr, ss), "r|s|00": cat(rr, ss, z), "r|s[1:]": cat(rr, ss[1:]), "r[1:]|s[1:]": cat(rr[1:], ss[1:]),
+				"der": derSig(new(big.Int).SetBytes(rr), new(big.Int).SetBytes(ss)), "empty": {},
+			}
+			for name, f := range forms {
+				if bytes.Equal(f, sig2) {
+					continue
+				}
+				if dv.VerifyDigest(dg, f) == nil || v.Verify(content, f) == nil {
+					sw.fail("digest", desc+" form="+name, "a re-rendered (r, s) is accepted by Verify / VerifyDigest")
+				}
 			}
 		}
 		if k.name == "ecdsa" {
